@@ -254,7 +254,7 @@ def _params(f, table, ab=None):
 
 # =================================================================================================================== R02-a
 def r02a(P, R):
-    _sections(P, R, "R02-a", _a_leaf_nullability, _a_tree_nullability, _a_field_kinds, _a_wrappers, _a_field_types)
+    _sections(P, R, "R02-a", _a_leaf_nullability, _a_tree_nullability, _a_end_to_end_nullability, _a_field_kinds, _a_wrappers, _a_field_types)
 
 
 LEAF_TYPES = ("T", "T!", "[T]", "[T!]", "[T]!", "[T!]!", "[[T]!]", "[[T!]]!", "[[T]]", "[[[T]!]]!")
@@ -324,6 +324,49 @@ def _a_tree_nullability(P, R):
              "table: %s types an object selection of GraphQL type %s as %s, the spec table gives %s (M = the union of its branches): %s"
              % (f.path, t, _show_ts(bad[0]) if bad else "", _show_ts(want), _null_diff(bad[0], want) if bad else ""),
              "no path of %s returns normally on this input" % f.path, loc=f.loc())
+
+
+def _a_end_to_end_nullability(P, R):
+    """producer and consumer of the selection tree together: the wrappers of a parent type T, carried by whatever representation the tree has, arrive in
+    the TypeScript type as the spec table says.  The tree value the public producer returns for the wrapper term T (no branch, so M is the empty
+    union) is handed to the public consumer as it is."""
+    gt = P.fn(OT + "type_printer::get_type_for_selection_set")
+    f = _to_ts(P)
+    stops = [g.path for g in (P.fn(OT + "type_printer::" + n, required=False) for n in ("generate_branching_conditions", "get_object_type_for_selection_set")) if g]
+    hooks = {stops[0]: (lambda ab, args: [])} if stops else {}
+    for t in ("T", "T!", "[T]", "[T!]!", "[[T]!]", "[[T!]]!", "[[T!]]", "[[[T]!]]!"):
+        key = "nulltable:parent-to-type:" + t.replace("T", "Obj")
+        term = _ty(t)
+
+        def thunk(ab, term=term):
+            tree = ab.call(gt.path, _params(gt, [("type::Type<", lambda: _t_type(P, term))]))
+            return ab.call(f.path, _params(f, [("SelectionTree<", tree)]))
+        try:
+            paths = _Abs(P, stops, hooks=hooks).explore(thunk)
+        except (_Unknown, AnchorMissing) as e:
+            R.undecided("R02-a", key, "the abstract evaluation of %s then %s does not decide the type of a selection on a parent of type %s (%s)" % (gt.path, f.path, t, e), loc=f.loc())
+            continue
+        except (KeyError, IndexError, TypeError, AttributeError, RecursionError, ValueError) as e:
+            R.undecided("R02-a", key, "the abstract evaluation does not decide the type of a selection on a parent of type %s (evaluator: %r)" % (t, e), loc=f.loc())
+            continue
+        want = _spec_tree(term)
+        got = []
+        for st, v, _ in paths:
+            if st == "ok":
+                try:
+                    got.append(_blank_members(_c_ts(v)))
+                except _Shape:
+                    got = None
+                    break
+        if not got:
+            R.undecided("R02-a", key, "what %s returns for the tree of a parent of type %s is not a determined TypeScript type" % (f.path, t), loc=f.loc())
+            continue
+        bad = [g for g in got if g != want]
+        dirs = set().union(*[_null_dirs(g, want) for g in bad]) if bad else set()
+        _Toward(R, dirs).check("R02-a", key, not bad, "table: a selection on a parent of type %s is typed %s" % (t, _show_ts(want)),
+                               "table: the selection tree %s builds for a parent of GraphQL type %s is typed by %s as %s, the spec table gives %s (M = the union of its "
+                               "branches): producer and consumer of the tree disagree on the order / meaning of the wrappers — %s"
+                               % (gt.path, t, f.path, _show_ts(bad[0]) if bad else "", _show_ts(want), _null_diff(bad[0], want) if bad else ""), loc=f.loc())
 
 
 def _a_field_kinds(P, R):
@@ -830,6 +873,30 @@ def _e_alias_spaces(P, R):
         _tri(R, "R02-e", "alias-spaces:collector", None if not seen else bad is None, "paths: unaliased fields are collected as Left, aliased ones as Right",
              "paths: %s collects %s: the two key spaces are swapped against what the branch builder expects" % (gf.path, bad),
              "no abstract path of %s shows a field being collected together with the test of its alias" % gf.path, loc=gf.loc())
+    if G is not None:
+        gf, paths, names = G
+        seen, bad = 0, None
+        for st, v, evs in paths:
+            if st != "ok" or not isinstance(_d(v), list):
+                continue
+            for ev in evs:
+                if ev[0] == "elem" and ("call", names["gf"]) in ev[1]:
+                    e = ev[2].kids.get("#elem")
+                    if not (isinstance(e, _Opq) and isinstance(e.ref, _Var) and e.ref.name in ("Left", "Right")):
+                        continue
+                    inside = _progeny(e) | {id(e)}
+                    for x in _d(v):
+                        y = _d(x)
+                        if isinstance(y, _Var) and y.name in ("Left", "Right") and (id(x) in inside or _progeny(y) & inside):
+                            seen += 1
+                            if y.name != e.ref.name:
+                                bad = (e.ref.name, y.name)
+        _tri(_Toward(R, ["wide"]), "R02-e", "alias-spaces:fragment", None if not seen else bad is None,
+             "paths: a field a fragment contributes stays on its side (Left: unaliased, Right: aliased), skipped or not",
+             "paths: %s re-emits a field that a fragment contributed as %s as %s (when the fragment is skipped): the `?: never` marker of an aliased key lands among "
+             "the unaliased keys, where `Extract<keyof Orig, keyof Obj>` drops it — the skipped case admits objects that still carry the alias"
+             % (gf.path, bad[0] if bad else "", bad[1] if bad else ""),
+             "no abstract path of %s passes on a field that a fragment contributed with a determined side" % gf.path, loc=gf.loc())
     go = P.fn(OT + "type_printer::get_object_type_for_selection_set")
     dm = P.fn(OT + "deep_merge::deep_merge_selection_tree")
     gf0 = _gf(P)
@@ -910,8 +977,12 @@ def _e_branches(P, R):
     for m in partners:
         a = pv.atoms(m)
         calls = {x[1] for x in pv.data_atoms(m) if x[0] == "call"}
-        pos = sorted(c for c in calls if any(c.endswith(p) for p in POSITIONAL))
-        indexed = any(x.get("k") == "Index" for x in _src_nodes(pv, m))
+        # a position that was itself looked up by `type_name` (an index map type name -> position) is a key, not a position
+        src = _src_nodes(pv, m)
+        by_key = lambda e: has_field(pv.atoms(e), STB, "type_name")
+        pos_nodes = [x for x in src if x.get("k") in ("MethodCall", "Call") and any((call_name(x) or "").endswith(p) for p in POSITIONAL)]
+        pos = sorted({call_name(x) for x in pos_nodes if not any(by_key(a) for a in x.get("args", []))} & {c for c in calls if any(c.endswith(p) for p in POSITIONAL)})
+        indexed = any(x.get("k") == "Index" and not by_key(x["idx"]) for x in src)
         keyed = has_field(a, STB, "type_name")
         if pos or indexed:
             R.violated("R02-e", "branch-pairing", "merge_selection_trees picks the right-hand partner of a branch by position (%s): when one side has several "
@@ -1061,7 +1132,7 @@ def _fast_equal_sound(P, R, rule):
 # =================================================================================================================== R02-f
 def r02f(P, R):
     """only possible (type, variables) branches: type-condition filter and skip/include tables"""
-    _sections(P, R, "R02-f", _f_condition_table, _f_sites, _f_skipped_fragment, _f_spread_twice, _f_skip_table, _f_variables, _f_skip_coverage, _f_possible_types)
+    _sections(P, R, "R02-f", _f_condition_table, _f_sites, _f_skipped_fragment, _f_spread_twice, _f_same_key_twice, _f_skip_table, _f_variables, _f_skip_coverage, _f_possible_types)
 
 
 def _f_condition_table(P, R):
@@ -1180,6 +1251,25 @@ def _f_sites(P, R):
                 unfed = "the branch's object (`parent_obj`)"
             elif not any(c in org for _, c in FRAG.values()):
                 unfed = "the fragment's type condition"
+    # what an applying, unskipped fragment contributes is collected under the *current* branch (by the collector itself), not taken from elsewhere
+    FS, FDIR = ("variant", A + "selection_set::Selection", "FragmentSpread"), {("field", A + "selection_set::FragmentSpread", "directives"), ("field", A + "selection_set::InlineFragment", "directives")}
+    stale = 0
+    for st, v, evs in paths:
+        if st != "ok" or any(e[0] == "capped" for e in evs) or any(e[0] == "call" and e[1] == names["gf"] for e in evs):
+            continue
+        applies = any(e[0] == "assume" and e[2] is True and ("eq",) not in e[1] and any(x[0] == "call" and x[1] == names["cfc"] for x in e[1]) for e in evs)
+        skipped = any(e[0] == "assume" and e[2] is True and ("eq",) not in e[1] and any(x[0] == "call" and x[1] == names["csd"] for x in e[1]) and FDIR & set(e[1]) for e in evs)
+        is_spread = any(e[0] == "assume" and e[2] in ("FragmentSpread", "InlineFragment") for e in evs)
+        r = _d(v)
+        walked = any(e[0] == "iter" and any(a in e[1] for a, _ in FRAG.items()) for e in evs)
+        if applies and is_spread and not skipped and not walked and ((isinstance(r, list) and r) or isinstance(r, _Opq)):
+            stale += 1
+    if stale:
+        R.violated("R02-f", "type-condition:under-this-branch", "paths: %s contributes the fields of an applying, unskipped fragment without collecting them under the current "
+                   "branch (no walk of the fragment's selection set with this branch's variable values): what is contributed was computed for other values of the "
+                   "variables — `?: never` markers of different assignments are mixed in one union member" % gf.path, loc=gf.loc())
+    elif len(seen) == 2:
+        R.holds("R02-f", "type-condition:under-this-branch", "paths: the fields of a fragment are collected under the current branch", loc=gf.loc())
     if bad:
         R.violated("R02-f", "type-condition:sites", "paths: %s collects the fields of %s on a path on which the type-condition filter (%s) was not found to apply: "
                    "keys of a fragment appear in the branches of objects the fragment does not apply to" % (gf.path, bad, short(names["cfc"])), loc=gf.loc())
@@ -1273,6 +1363,54 @@ def _f_spread_twice(P, R):
          "recorded for the first spread — before its @skip/@include was looked at — suppresses it): the fragment's fields stay `?: never` although the second spread "
          "selects them, real responses are not members of the type" % gf.path,
          "no abstract path of %s takes the skip test of the first of two spreads to be true" % gf.path, loc=gf.loc())
+
+
+def _f_same_key_twice(P, R):
+    """one composite response key selected twice as siblings, the first occurrence under a directive: on a path that takes the first occurrence to be
+    skipped and the second not, the sub-selection that is typed for the key must not contain the first occurrence's selections (a skipped
+    occurrence contributes `?: never` at most).  Read from the collector's paths on [k d1 { s1 }, k d2 { s2 }]."""
+    gf = _gf(P)
+    cfc = _role(P, OT + "type_printer::check_fragment_condition", ["QueryTypePrinterContext", "ObjectDefinition", "str"], "bool")
+    csd = _csd(P)
+    gt = P.fn(OT + "type_printer::get_type_for_selection_set")
+    ext = P.fn("nitrogql_semantics::direct_fields_of_output_type::direct_fields_of_output_type", required=False)
+    key = "same-key-twice"
+
+    def thunk(ab):
+        name = _Opq("k")
+        sels = []
+        for i in ("1", "2"):
+            sub = _t_obj(P, A + "selection_set::SelectionSet", {"selections": _Opq("selections of occurrence " + i, [("term", "s" + i)])})
+            sels.append(_t_var(P, A + "selection_set::Selection", "Field", [_t_obj(P, A + "selection_set::Field", {
+                "alias": _none(), "name": _t_ident(P, name), "directives": _Opq("directives of occurrence " + i, [("term", "d" + i)]), "selection_set": _some(sub)})]))
+        ss = _t_obj(P, A + "selection_set::SelectionSet", {"selections": sels})
+        return ab.call(gf.path, _params(gf, [("SelectionSet", ss)]), top=True)
+    stops = [gf.path, cfc.path, csd.path, gt.path] + ([ext.path] if ext else [])
+    try:
+        paths = _Abs(P, stops).explore(thunk)
+    except (_Unknown, AnchorMissing) as e:
+        R.undecided("R02-f", key, "the abstract evaluation of %s does not decide how a composite key selected twice is collected (%s)" % (gf.path, e), loc=gf.loc())
+        return
+    except (KeyError, IndexError, TypeError, AttributeError, RecursionError, ValueError) as e:
+        R.undecided("R02-f", key, "the abstract evaluation of %s does not decide this (evaluator: %r)" % (gf.path, e), loc=gf.loc())
+        return
+    seen = leaked = 0
+    for st, v, evs in paths:
+        if st != "ok":
+            continue
+        def taken(d, val):
+            return any(e[0] == "assume" and e[2] is val and ("eq",) not in e[1] and ("term", d) in e[1] and any(x[0] == "call" and x[1] == csd.path for x in e[1]) for e in evs)
+        if not (taken("d1", True) and taken("d2", False)):
+            continue
+        seen += 1
+        for e in evs:
+            if e[0] == "call" and e[1] == gt.path and any(("term", "s1") in _origin(a) for a in e[2]):
+                leaked += 1
+    _tri(_Toward(R, ["narrow"]), "R02-f", key, None if not seen else not leaked,
+         "paths: the selections of an occurrence that is skipped in this branch are not typed into the key's sub-selection",
+         "paths: given `k @dir1 { s1 } k @dir2 { s2 }`, %s has a path on which the first occurrence is skipped, the second is not, and the sub-selection typed for `k` "
+         "still contains s1: fields selected only by a skipped occurrence are required, the response the server sends in that case is not a member of the type" % gf.path,
+         "no abstract path of %s takes the first of two occurrences of a key to be skipped and the second not" % gf.path, loc=gf.loc())
 
 
 def _progeny(o):
@@ -2010,12 +2148,13 @@ class _Opq:
     elements, the one element of an undetermined sequence) are created once and remembered."""
     def __init__(self, why="", origin=(), ty=None):
         self.why, self.origin, self.ty = why, frozenset(origin), ty
-        self.ref, self.excl, self.kids, self.lvl = None, set(), {}, 0
+        self.ref, self.excl, self.kids, self.lvl, self.depth = None, set(), {}, 0, 0
 
     def kid(self, key, why, atoms=()):
         if key not in self.kids:
             k = self.kids[key] = _Opq(why, self.origin | frozenset(atoms))
             k.lvl = self.lvl + (1 if key == "#elem" else 0)
+            k.depth = self.depth + (1 if isinstance(key, str) and "." in key and not key.startswith("#") else 0)
         return self.kids[key]
 
     def __repr__(self):
@@ -2619,6 +2758,11 @@ class _Abs:
         """fork: is the undetermined enum value `o` the variant `name`?  (yes: it becomes that variant with undetermined payloads)"""
         if name in o.excl:
             return False
+        if o.depth >= 4 and arity:
+            # a payload of a payload of a payload ...: recursive data is unfolded four levels deep
+            self.event("capped", "nesting")
+            o.excl.add(name)
+            return False
         if self.choose(2) == 0:
             val = _Var(name, [o.kid("%s.%d" % (name, i), "%s.%d" % (name, i), [("variant", adt, name)]) for i in range(arity)], adt)
             self.assume(o, val)
@@ -2672,6 +2816,10 @@ class _Abs:
             elif t.startswith("core::result::Result<"):
                 if not self.is_variant(r, "Ok", 1, "core::result::Result"):
                     self.assume(r, _Var("Err", [r.kid("Err.0", "err")], "core::result::Result"))
+                r = _d(r)
+            elif t.startswith("either::Either<") and name in ("into_inner", "map", "map_left", "map_right", "either", "is_left", "is_right", "left", "right", "flip"):
+                if not self.is_variant(r, "Left", 1, "either::Either"):
+                    self.assume(r, _Var("Right", [r.kid("Right.0", "Right.0", [("variant", "either::Either", "Right")])], "either::Either"))
                 r = _d(r)
             elif _seqlike(t) or (not t and name in _SEQ_ONLY):
                 if name == "is_empty" and not A:
@@ -2773,6 +2921,12 @@ class _Abs:
                 return not ok
             if name == "map":
                 return _Var("Ok", [ap(A[0], [r.args[0]])], r.adt) if ok else r
+        if isinstance(r, _Var) and r.name in ("Left", "Right") and name in ("into_inner", "is_left", "is_right", "left", "right") and len(r.args) == 1:
+            if name == "into_inner":
+                return r.args[0]
+            if name in ("is_left", "is_right"):
+                return (r.name == "Left") == (name == "is_left")
+            return _some(r.args[0]) if r.name.lower() == name else _none()
         if isinstance(r, _Var) and r.name in ("Left", "Right") and name in ("map", "map_left", "map_right", "either", "into_iter", "iter"):
             if name == "map":   # itertools::Either<T, T>::map
                 return _Var(r.name, [ap(A[0], [r.args[0]])], r.adt)
